@@ -107,7 +107,11 @@ func c13ObjectProgram(s Src) (string, *C13Expect) {
 			objKeys[o][k] = true
 		}
 	}
-	pool := []string{"zeta", "alpha", "mid", "beta", "omega", "gamma", "\u0995", "delta", "ID", "id", "Id", "\u09ac\u09df\u09b8", "Alpha"}
+	pool := []string{"zeta", "alpha", "mid", "beta", "omega", "gamma", "\u0995", "delta", "ID", "id", "Id", "\u09ac\u09df\u09b8", "Alpha",
+		// long names that share their first 16 bytes and have equal length
+		"customer_account_name1", "customer_account_name2", "\u0997\u09cd\u09b0\u09be\u09b9\u0995\u09c7\u09b0_\u09a8\u09be\u09ae", "\u0997\u09cd\u09b0\u09be\u09b9\u0995\u09c7\u09b0_\u09a6\u09be\u09ae",
+		// two spellings of one canonically equivalent name (U+09CB vs U+09C7 U+09BE)
+		"\u099b\u09cb\u099f", "\u099b\u09c7\u09be\u099f", "k2", "k10"}
 	drawKeys := func(n int) []string {
 		p := append([]string(nil), pool...)
 		for i := 0; i < n; i++ {
@@ -119,7 +123,7 @@ func c13ObjectProgram(s Src) (string, *C13Expect) {
 	n := s.Int("nstmts", 2, 8)
 	terminal := false
 	for i := 0; i < n && !terminal; i++ {
-		switch s.Int("stmt", 0, 12) {
+		switch s.Int("stmt", 0, 14) {
 		case 0, 1: // literal whose initialisers print tags
 			keys := drawKeys(s.Int("nk", 2, 6))
 			var parts []string
@@ -180,6 +184,32 @@ func c13ObjectProgram(s Src) (string, *C13Expect) {
 			nobj++
 			setKeys(nobj)
 			ls = append(ls, fmt.Sprintf("%s ob%d = {%s};", KwVar, nobj, strings.Join(parts, ", ")), fmt.Sprintf("%s ob%d;", KwPrint, nobj), fmt.Sprintf("%s %s(ob%d);", KwPrint, FnKeys, nobj))
+		case 13: // two different names, each repeated (anything said about repeated names must come in a fixed order)
+			keys := drawKeys(3)
+			ntag += 5
+			for j := 4; j >= 0; j-- {
+				ex.Tags = append(ex.Tags, fmt.Sprintf("T:%d", ntag-j))
+			}
+			nobj++
+			setKeys(nobj, keys...)
+			ls = append(ls, fmt.Sprintf("%s ob%d = {%s: tag(%d, 1), %s: tag(%d, 2), %s: tag(%d, 3), %s: tag(%d, 4), %s: tag(%d, 5)};", KwVar, nobj, keys[0], ntag-4, keys[1], ntag-3, keys[0], ntag-2, keys[1], ntag-1, keys[2], ntag),
+				fmt.Sprintf("%s %s(ob%d);", KwPrint, FnValues, nobj))
+		case 14: // delete one of the (possibly canonically equivalent) names of an object, then list it
+			if nobj == 0 {
+				continue
+			}
+			on := 1 + s.Int("which", 0, nobj-1)
+			var ks []string
+			for k := range objKeys[on] {
+				ks = append(ks, k)
+			}
+			if len(ks) == 0 {
+				continue
+			}
+			sort.Strings(ks)
+			dk := Pick(s, "delkey", ks)
+			delete(objKeys[on], dk)
+			ls = append(ls, fmt.Sprintf("%s(ob%d, \"%s\");", FnDelete, on, dk), fmt.Sprintf("%s %s(ob%d);", KwPrint, FnValues, on), fmt.Sprintf("%s %s(ob%d);", KwPrint, FnKeys, on))
 		case 11: // a literal that names a property twice: every initialiser still runs, in source order
 			keys := drawKeys(3)
 			ntag += 4
